@@ -317,6 +317,7 @@ def run(chk):
                               f"{cls.name}.write_with_length hands a chunk to the writer without truncating it to the remaining declared length: a read that returns more bytes than asked for (text-mode files count characters; the first read is uncapped when the remainder is 0) puts surplus bytes on the connection after the declared body")
     chk.expect_count("C04.length", n_cap, 7, "writer.write calls in write_with_length implementations")
     bodiless(chk, repo)
+    ioloop(chk, repo)
     from rules import C19 as _C19
 
     _C19.textsize(chk, repo, "C04.length")
@@ -371,3 +372,62 @@ def bodiless(chk, repo, rule="C04.bodiless"):
                 else:
                     chk.violation(rule, c, K.short(c, 60), "!(self._must_be_empty_body)",
                                   f"StreamResponse.{m.name}() enables the stream compressor on HEAD / 204 / 304 responses: write_eof() flushes it and 8 (deflate) or 20 (gzip) unframed bytes follow the header block, in front of the next response on the connection")
+
+
+def ioloop(chk, repo, rule="C04.ioloop"):
+    """A file-like body is streamed until read() returns nothing: the only earlier exits are `the known size was written` and `the declared
+    length is used up`.  (io.RawIOBase.read(n) may return fewer than n bytes long before EOF - pipes, sockets, unbuffered files - so the
+    length of one read says nothing about the end.)"""
+    plm = repo.module(PL)
+    n = 0
+    for cls in plm.classes.values():
+        fn = cls.methods.get("write_with_length")
+        if fn is None:
+            continue
+        loops = [w for w in ast.walk(fn.node) if isinstance(w, ast.While) and isinstance(w.test, ast.Name)
+                 and any(isinstance(c, ast.Call) and "_read" in norm.raw(c) for c in ast.walk(w))]
+        for w in loops:
+            data = w.test.id
+            largs = [a.arg for a in fn.node.args.args]
+            lname = largs[2] if len(largs) > 2 else "content_length"
+            size_names = {lname, "available_len"} | {k for k, ds in norm.fn_defs(fn.node).defs.items() if any(v is not None and norm.raw(v) == lname for _d, v in ds)}
+            exits = [x for x in ast.walk(w) if isinstance(x, (ast.Return, ast.Break)) and next(iter(K.loop_ancestors(x)), None) in (w, None) or (isinstance(x, ast.Return) and x is not w and any(l is w for l in K.loop_ancestors(x)))]
+            for x in exits:
+                n += 1
+                atoms = []
+                for clause in PC.pc(x, stop=w, raw=True):
+                    for lit in clause:
+                        if lit.text != data:  # the loop test itself
+                            atoms.append(lit.text)
+                bad = []
+                for a in atoms:
+                    call = None
+                    try:
+                        call = ast.parse(a, mode="eval").body
+                    except SyntaxError:
+                        pass
+                    if isinstance(call, ast.Call) and isinstance(call.func, ast.Attribute) and norm.raw(call.func.value) == "self" and call.func.attr in cls.methods:
+                        h = cls.methods[call.func.attr]
+                        params = [p.arg for p in h.node.args.args][1:]
+                        ok_params = {p for p, arg in zip(params, call.args) if norm.raw(arg) in size_names}
+                        rets = [r for r in ast.walk(h.node) if isinstance(r, ast.Return) and r.value is not None]
+                        for r in rets:
+                            for clause in norm.cnf_raw(r.value, True):
+                                for lit in clause:
+                                    names = {nn.id for nn in ast.walk(ast.parse(lit.text, mode="eval")) if isinstance(nn, ast.Name)}
+                                    if not (names & ok_params):
+                                        bad.append(f"{h.qualname}: {lit.text}")
+                    else:
+                        try:
+                            names = {nn.id for nn in ast.walk(ast.parse(a, mode="eval")) if isinstance(nn, ast.Name)}
+                        except SyntaxError:
+                            names = set()
+                        if not (names & size_names):
+                            bad.append(a)
+                if bad:
+                    chk.violation(rule, x, K.short(x), "stop only on: empty read | known size written | declared length used up",
+                                  f"{cls.name}.write_with_length leaves the read loop on `{bad[0]}`, which is neither the end of the file-like object (an empty read) nor an exhausted known/declared length: "
+                                  "read(n) on a pipe, socket or unbuffered file returns short blocks long before EOF, so the body is silently truncated and the message still ends cleanly (last chunk / Content-Length mismatch)")
+                else:
+                    chk.ok(rule, x, f"{cls.name}.write_with_length: the read loop is left early only when the known size was written or the declared length is used up ({'; '.join(atoms)[:120]})")
+    chk.expect_count(rule, n, 1, "early exits of file read loops in write_with_length implementations")
